@@ -690,6 +690,17 @@ class _Literals(ast.NodeTransformer):
             return ast.copy_location(out, node)
         return node
 
+    def visit_Call(self, node):
+        self.generic_visit(node)
+        # itemgetter(k) / operator.itemgetter(k) with one constant index -> lambda x: x[k]
+        f = node.func
+        nm = f.attr if isinstance(f, ast.Attribute) else (f.id if isinstance(f, ast.Name) else None)
+        if nm == "itemgetter" and len(node.args) == 1 and not node.keywords and isinstance(node.args[0], ast.Constant):
+            return ast.copy_location(ast.Lambda(
+                ast.arguments(posonlyargs=[], args=[ast.arg("x")], kwonlyargs=[], kw_defaults=[], defaults=[]),
+                ast.Subscript(ast.Name("x", ast.Load()), node.args[0], ast.Load())), node)
+        return node
+
     def visit_AnnAssign(self, node):
         self.generic_visit(node)
         if node.value is not None and isinstance(node.target, ast.Name) and node.simple:
